@@ -124,7 +124,10 @@ def verify_function(eng, qualname):
         else:
             raise Unsupported("%s outside a loop" % o[0])
     obls = eng.obls[n0:]
-    return dict(obligations=obls, sha=mod.sha(fdef), lines=(fdef.lineno, fdef.end_lineno), paths=len(outs),
+    import hashlib
+    deps = sorted(getattr(f, 'inlined_shas', ()))
+    sha = mod.sha(fdef) if not deps else hashlib.sha256((mod.sha(fdef) + ''.join(deps)).encode()).hexdigest()[:16]
+    return dict(obligations=obls, sha=sha, lines=(fdef.lineno, fdef.end_lineno), paths=len(outs),
                 file=mod.path)
 
 
